@@ -12,13 +12,13 @@ variable {K : Type} [Field K] [DecidableEq K]
 /-- `control/frdata.py:_convert_to_frd` as the source text says it (sha256 of the function text
 36033285cac1ea7dd6863cb4bb7b12f3c36132fbb7f881917dbadde392938b91).
 Defaults: inputs=1, outputs=1. -/
-def convertToFrd (E : Env K) (sys : PyOpd K) (omega : PVec) (inputs : Nat) (outputs : Nat) : Except Err (PyFRD K) :=
+def convertToFrd (E : Env K) (sys : PyOpd K) (omega : FVec) (inputs : Nat) (outputs : Nat) : Except Err (PyFRD K) :=
   match sys with
   | .frd sys => do
     let t3 ← (do
       if (omega.n = (PyFRD.omega sys).n) then
-        let t2 ← PVec.sub omega (PyFRD.omega sys)
-        pure (decide ((PBVec.all (PVec.ltNum (PVec.abs t2) ((1 : ℚ) / 100000000))) = true))
+        let t2 ← FVec.sub omega (PyFRD.omega sys)
+        pure (decide ((PBVec.all (FVec.ltNum (FVec.abs t2) ((1 : ℚ) / 100000000))) = true))
       else
         pure false
       : Except Err Bool)
@@ -50,13 +50,13 @@ def convertToFrd (E : Env K) (sys : PyOpd K) (omega : PVec) (inputs : Nat) (outp
     | .error _ => do
       throw Err.notImplemented
   | .lti sys => do
-    let omega : PVec := (PVec.sort omega)
+    let omega : FVec := (FVec.sort omega)
     let frdata ← (do
       if (PyLTI.isctime sys = true) then
-        let frdata ← PyLTI.call sys (PVec.jw E omega)
+        let frdata ← PyLTI.call sys (FVec.jw E omega)
         pure frdata
       else
-        let t1 ← PVec.expj E omega (LTI.dt sys)
+        let t1 ← FVec.expj E omega (LTI.dt sys)
         let frdata ← PyLTI.call sys t1
         pure frdata
       : Except Err (PArr3 K))
